@@ -491,12 +491,14 @@ def _r6_controller(ctx, nad):
     if not ends:
         raise AnalysisError("_propagate_electronic: coupling end points (new - old) not found")
     # adaptive arm: the `if substeps is None:` body
-    arms = [st for st in ast.walk(f) if isinstance(st, ast.If) and norm(st.test).replace(" ", "") == "substepsisNone"]
+    arms = [st for st in ast.walk(f) if isinstance(st, ast.If) and norm(st.test).replace(" ", "") in ("substepsisNone", "substepsisnotNone")]
     if not arms:
         raise AnalysisError("_propagate_electronic: adaptive arm (substeps is None) not found")
     arm = arms[0]
+    # the adaptive arm is the one taken when no sub-step count is requested, whichever way the test is written
+    arm_body = arm.body if norm(arm.test).replace(" ", "") == "substepsisNone" else arm.orelse
     arm_defs = {}
-    for st in arm.body:
+    for st in arm_body:
         for x in ast.walk(st):
             if isinstance(x, ast.Assign) and len(x.targets) == 1 and isinstance(x.targets[0], ast.Name):
                 arm_defs.setdefault(x.targets[0].id, []).append(x.value)
